@@ -44,6 +44,9 @@ type CallMon struct {
 	// goroutine would do it); PollsAfter counts the polls that saw it done.
 	CancelAfterPoll int
 	PollsAfter      int
+	// PastDeadline: the context reports a deadline in the past (while Err()
+	// still says what actually ended it, e.g. context.Canceled).
+	PastDeadline bool
 }
 
 // MCtx is a context carrying a CallMon; its Done/Err are driven by the
@@ -82,7 +85,14 @@ func (c *MCtx) Err() error {
 	return nil
 }
 
-func (c *MCtx) Deadline() (time.Time, bool) { return time.Time{}, false }
+// Deadline: none, or - for a context that was cancelled by its owner before
+// a deadline that has passed since - a fixed instant in the past.
+func (c *MCtx) Deadline() (time.Time, bool) {
+	if c.M.PastDeadline {
+		return time.Unix(1, 0), true
+	}
+	return time.Time{}, false
+}
 
 // NewMon returns a monitor that never cancels.
 func NewMon() *CallMon { return &CallMon{CancelAt: -1} }
@@ -384,7 +394,10 @@ type Opts struct {
 func (o Opts) Exec() []exec.Option {
 	var r []exec.Option
 	if o.Vars != nil {
-		r = append(r, exec.WithVars(exec.Vars(o.Vars)))
+		// Options are applied in order and the last WithVars wins: an earlier
+		// one (a default set by a wrapper) must neither leak its bindings into
+		// the call nor be written to.
+		r = append(r, exec.WithVars(exec.Vars(earlierVars)), exec.WithVars(exec.Vars(o.Vars)))
 	}
 	if o.Silent {
 		r = append(r, exec.WithSilent())
@@ -393,6 +406,14 @@ func (o Opts) Exec() []exec.Option {
 		r = append(r, exec.WithTZ())
 	}
 	return r
+}
+
+// earlierVars is passed in a WithVars option that a later WithVars overrides.
+var earlierVars = map[string]any{"missing": "bound only in the overridden map", "earlier": int64(1)}
+
+// EarlierVarsIntact reports whether the overridden variables map is untouched.
+func EarlierVarsIntact() bool {
+	return len(earlierVars) == 2 && earlierVars["missing"] == "bound only in the overridden map" && earlierVars["earlier"] == int64(1)
 }
 
 func (o Opts) BaseCtx() context.Context {
@@ -435,6 +456,10 @@ func CallMonitored(entry string, p *path.Path, doc any, o Opts, m *CallMon) (out
 			out.Class = Panic
 			// an aborted call leaves the in-flight gauge unbalanced only if
 			// the panic bypassed the deferred hook, which it cannot.
+		}
+		if o.Vars != nil && !EarlierVarsIntact() {
+			m.Faults = append(m.Faults, fmt.Sprintf("options-not-independent: the variables map of an overridden WithVars option was modified: %v", earlierVars))
+			earlierVars = map[string]any{"missing": "bound only in the overridden map", "earlier": int64(1)}
 		}
 		out.Faults = m.Faults
 		out.Steps = m.Steps
